@@ -23,5 +23,6 @@ def gen(tier, rng):
     yield nodegen.c08_script(rng, "states", thorough)
     for f in (False, True):
         yield nodegen.keyholder_script(rng, "keyholder-%d" % f, f)
+    yield nodegen.plain_script(rng, "plain-mixed", [True, False, "only"], seconds=8)
     for i in range(40 if thorough else 6):
         yield nodegen.attack_script(rng, "attack-%d" % i, rng.choice([2, 3]), 12 if thorough else 8, rng.choice(["router", "switch"]), rng.choice(["tun", "tap"]))
